@@ -11,7 +11,7 @@ PROPS = ('C07',)
 
 
 def plan(tier, seed):
-    return _histcheck.plan(lambda t: (genhist.n_core_additions(t, genhist.nadd_for(t, tier)) + genhist.n_core_mixed(t, 1 if tier == 'quick' else 2) + 400))
+    return _histcheck.plan(lambda t: (genhist.n_core_forward_first(t, 2) * 1 + genhist.n_core_additions(t, genhist.nadd_for(t, tier)) + genhist.n_core_mixed(t, 1 if tier == 'quick' else 2) + 400))
 
 
 def run_shard(shard, tier, seed):
